@@ -47,110 +47,71 @@ def run(repo, rep, tier):
     ev_ = repo.func('policy', 'Policy.evaluate')
     rep.saw(cr), rep.saw(init), rep.saw(ev_)
 
-    # ---- the template ----------------------------------------------------------------------------------------------------
-    pd = [n for n in walk_no_nested(cr) if isinstance(n, ast.Assign) and unparse(n.targets[0]) == 'policy_data' and isinstance(n.value, ast.BinOp) and isinstance(n.value.op, ast.Mod)]
-    if len(pd) != 1 or not isinstance(pd[0].value.left, ast.Constant) or not isinstance(pd[0].value.right, ast.Tuple):
-        raise AnalysisError('policy template in Policy.create not recognised')
-    tmpl = pd[0].value.left.value
-    args = pd[0].value.right.elts
-    lines = template_lines(tmpl)
-    nph = sum(len(ph) for l, ph in lines)
-    rep.check('template', 'template placeholders match the argument tuple (%d)' % nph, nph == len(args), pd[0], 'template has %d placeholders for %d arguments' % (nph, len(args)))
-
-    def local_def(name):
-        ds = [n for n in walk_no_nested(cr) if isinstance(n, ast.Assign) and unparse(n.targets[0]) == name and not (isinstance(n.value, ast.Constant) and n.value.value in (None, ''))]
-        return ds
-    active = {}        # key -> value expression(s)
-    for line, ph in lines:
-        s = line.strip()
-        if not s or s.startswith('#'):
+    # ---- rule 1: the policy file, by interpretation (props/_policy.create / load) --------------------------------------------------------
+    # Policy.create is interpreted on a peer -> the text of the policy file; the constructor is interpreted on that text -> the policy state.  The state must
+    # hold exactly what the peer presented (lists in order, size maps with CA fields, relaxation flags off, nothing else constrained), whatever the names look
+    # like ('=', '+', '/', '@' occur in real names: every gss-...== key exchange).  The drift table below evaluates THAT state, so the writer, the line parser,
+    # the key dispatch, the list / JSON codecs and the normaliser are decided together, by what they compute.
+    from props import _policy
+    pconsts = _policy.class_consts(repo, ce)
+    RT_PEERS = [
+        ('an OpenSSH-like server with certificates and group exchange', {
+            'key_algorithms': ['rsa-sha2-512', 'rsa-sha2-256', 'ssh-rsa', 'rsa-sha2-512-cert-v01@openssh.com', 'ssh-ed25519', 'ssh-ed25519-cert-v01@openssh.com'],
+            'kex_algorithms': ['curve25519-sha256', 'diffie-hellman-group-exchange-sha256', 'diffie-hellman-group-exchange-sha1', 'kex-strict-s-v00@openssh.com'],
+            'encryption': ['chacha20-poly1305@openssh.com', 'aes256-gcm@openssh.com', 'aes128-ctr'], 'mac': ['hmac-sha2-256-etm@openssh.com', 'umac-128-etm@openssh.com'], 'compression': ['none', 'zlib@openssh.com'],
+            'host_keys': {'rsa-sha2-512': {'hostkey_size': 3072, 'ca_key_type': '', 'ca_key_size': 0}, 'rsa-sha2-256': {'hostkey_size': 3072, 'ca_key_type': '', 'ca_key_size': 0}, 'ssh-rsa': {'hostkey_size': 3072, 'ca_key_type': '', 'ca_key_size': 0},
+                          'rsa-sha2-512-cert-v01@openssh.com': {'hostkey_size': 4096, 'ca_key_type': 'ssh-ed25519', 'ca_key_size': 256}, 'ssh-ed25519': {'hostkey_size': 256, 'ca_key_type': '', 'ca_key_size': 0},
+                          'ssh-ed25519-cert-v01@openssh.com': {'hostkey_size': 256, 'ca_key_type': 'ssh-rsa', 'ca_key_size': 4096}},
+            'dh_modulus_sizes': {'diffie-hellman-group-exchange-sha256': 3072, 'diffie-hellman-group-exchange-sha1': 2048}}, False),
+        ('names with =, +, / and @ (GSS key exchanges, base64 suffixes)', {
+            'key_algorithms': ['ssh-ed25519', 'x509v3-sign-rsa'], 'kex_algorithms': ['gss-gex-sha1-vz8J1E9PzLr8b1K+0remTg==', 'gss-group14-sha256-toWM5Slw5Ew8Mqkay+al2g==', 'gss-curve25519-sha256-a/b+c==', 'curve25519-sha256@libssh.org'],
+            'encryption': ['AEAD_AES_256_GCM', 'aes256-ctr'], 'mac': ['hmac-sha2-512', 'Umac-64@Openssh.com'], 'compression': ['none'],
+            'host_keys': {'ssh-ed25519': {'hostkey_size': 256, 'ca_key_type': '', 'ca_key_size': 0}}, 'dh_modulus_sizes': {'gss-gex-sha1-vz8J1E9PzLr8b1K+0remTg==': 2048}}, False),
+        ('a peer without probed keys or group exchange (one name per list)', {
+            'key_algorithms': ['ssh-ed25519'], 'kex_algorithms': ['curve25519-sha256'], 'encryption': ['aes256-ctr'], 'mac': ['hmac-sha2-256'], 'compression': ['none'], 'host_keys': {}, 'dh_modulus_sizes': {}}, False),
+        ('a client', {
+            'key_algorithms': ['ssh-ed25519', 'rsa-sha2-512'], 'kex_algorithms': ['curve25519-sha256', 'ext-info-c', 'kex-strict-c-v00@openssh.com'], 'encryption': ['aes256-ctr', 'aes128-ctr'], 'mac': ['hmac-sha2-256'], 'compression': ['none', 'zlib'],
+            'host_keys': {}, 'dh_modulus_sizes': {}}, True),
+    ]
+    loaded = {}
+    for desc, peer_, client_ in RT_PEERS:
+        text = _policy.create(repo, pconsts, peer_, client_audit=client_)
+        rep.evals()
+        if not isinstance(text, str):
+            rep.check('roundtrip', 'Policy.create writes a policy for %s' % desc, False, cr, 'Policy.create fails on %s: %s' % (desc, text[1]), stmt='create: %s' % desc)
             continue
-        if '=' not in s:
-            # a bare placeholder line: sub-template(s) inserted here
-            for i in ph:
-                a = args[i]
-                if isinstance(a, ast.Name):
-                    for d in local_def(a.id):
-                        v = d.value
-                        sub = v.left.value if isinstance(v, ast.BinOp) and isinstance(v.left, ast.Constant) else (v.value if isinstance(v, ast.Constant) else None)
-                        if sub is None:
-                            raise AnalysisError('sub-template %s not constant' % a.id)
-                        for l2 in sub.split('\n'):
-                            s2 = l2.strip()
-                            if s2 and not s2.startswith('#') and '=' in s2:
-                                k2 = s2.split('=', 1)[0].strip()
-                                val2 = v.right if isinstance(v, ast.BinOp) else None
-                                active[k2] = (val2, d)
+        st_ = _policy.load(repo, pconsts, text)
+        rep.evals()
+        if not isinstance(st_, dict):
+            culprit = next((n_ for k_ in ('kex_algorithms', 'key_algorithms', 'encryption', 'mac') for n_ in peer_[k_] if '=' in n_), None)
+            rep.check('roundtrip', 'the policy written for %s loads without error' % desc, False, init,
+                      'the policy Policy.create writes for %s does not load: %s%s' % (desc, st_[1], (' (the peer offers %r)' % culprit) if culprit else ''), stmt='load: %s' % desc)
             continue
-        k = s.split('=', 1)[0].strip()
-        active[k] = (args[ph[0]] if ph else None, pd[0])
-    rep.samples.append({'rule': 'template', 'active_keys': sorted(active)})
-    rep.floor('template', 'active keys in the generated policy', len(active), 9)
-
-    # ---- constructor dispatch -----------------------------------------------------------------------------------------------
-    accept = None
-    for n in walk_no_nested(init):
-        if isinstance(n, ast.Compare) and isinstance(n.ops[0], ast.NotIn) and unparse(n.left) == 'key' and isinstance(n.comparators[0], ast.List):
-            accept = [e.value for e in n.comparators[0].elts if isinstance(e, ast.Constant)]
-    if accept is None:
-        raise AnalysisError('accepted-key list of Policy.__init__ not found')
-    for k in sorted(active):
-        rep.check('keys', 'generated key %r is accepted by the loader' % k, k in accept, active[k][1], 'Policy.create writes the key %r which Policy.__init__ rejects ("invalid field found in policy")' % k)
-    # key -> field stored
-    stores = {}
-    for n in walk_no_nested(init):
-        if isinstance(n, ast.Assign) and isinstance(n.targets[0], ast.Attribute) and unparse(n.targets[0].value) == 'self' and n.targets[0].attr.startswith('_'):
-            for t, p, k in path_condition(n):
-                if k == 'if' and p and isinstance(t, ast.Compare) and unparse(t.left) == 'key' and isinstance(t.ops[0], ast.Eq) and isinstance(t.comparators[0], ast.Constant):
-                    stores.setdefault(t.comparators[0].value, []).append((n.targets[0].attr, n))
-    for label, (field, accessor, idiom) in TRIANGLE.items():
-        # (a) create serialises `accessor` under `label`
-        val, node = active.get(label, (None, None))
-        ok = val is not None
-        src = None
-        if ok:
-            v = val
-            if isinstance(v, ast.Name):
-                ds = local_def(v.id)
-                v = ds[0].value if len(ds) == 1 else None
-            if idiom == 'join':
-                ok = isinstance(v, ast.Call) and isinstance(v.func, ast.Attribute) and v.func.attr == 'join' and isinstance(v.func.value, ast.Constant) and v.func.value.value == ', '
-                src = unparse(v.args[0]) if ok else None
-            else:
-                ok = isinstance(v, ast.Call) and unparse(v.func) == 'json.dumps'
-                src = unparse(v.args[0]) if ok else None
-                if ok and src == 'host_keys_trimmed':
-                    ds = local_def('host_keys_trimmed')
-                    src = unparse(ds[0].value.args[0]) if ds and isinstance(ds[0].value, ast.Call) and unparse(ds[0].value.func) == 'copy.deepcopy' else src
-        rep.check('triangle', 'create() writes %s under %r with the %s idiom' % (accessor, label, idiom), ok and src == accessor, node or cr, 'under %r create() serialises %s (expected %s via %s)' % (label, src, accessor, idiom),
-                  sample={'rule': 'triangle', 'label': label, 'field': field, 'accessor': accessor})
-        # (b) the loader stores `label` into `field` with the inverse idiom
-        st = [f for f, n in stores.get(label, [])]
-        rep.check('triangle', 'loader stores %r into self.%s' % (label, field), st == [field], (stores.get(label) or [(None, init)])[0][1], 'loader stores %r into %s' % (label, st))
-        if st == [field]:
-            n = stores[label][0][1]
-            if idiom == 'join':
-                ok = unparse(n.value) == 'algs'
-                ad = [d for d in walk_no_nested(init) if isinstance(d, ast.Assign) and unparse(d.targets[0]) == 'algs']
-                okinv = any(unparse(d.value) == "val.split(',')" for d in ad) and any(unparse(d.value) == '[alg.strip() for alg in algs]' for d in ad)
-                rep.check('triangle', '%r is parsed by split(",") + strip (inverse of ", ".join)' % label, ok and okinv, n, 'list parser for %r changed' % label)
-            else:
-                rep.check('triangle', '%r is parsed by json.loads (inverse of json.dumps)' % label, unparse(n.value) == 'json.loads(val)', n, '%r parsed by %s' % (label, unparse(n.value)))
-        # (c) that evaluate() compares the field with the accessor is decided by the drift table below (every perturbation of the accessor must fail the policy)
-    # commented-out keys (banner, compressions) must also be loadable when un-commented
-    for line, ph in lines:
-        m = re.match(r'^#\s*([a-z _]+?)\s*=', line.strip())
-        if m and m.group(1) in ('banner', 'compressions', 'optional host keys'):
-            rep.check('keys', 'optional key %r (commented out in the template) is accepted by the loader' % m.group(1), m.group(1) in accept, pd[0], 'commented key %r would be rejected when enabled' % m.group(1))
-    # flags default false in the generated policy and are only switched on by "true"
-    for flag in ('allow_algorithm_subset_and_reordering', 'allow_larger_keys'):
-        rep.check('exact', 'generated policy sets %s = false' % flag, re.search(r'^%s = false$' % flag, tmpl, re.M) is not None, pd[0], 'generated policy does not fix %s = false' % flag)
-        sets = [n for n in walk_no_nested(init) if isinstance(n, ast.Assign) and unparse(n.targets[0]) == 'self._%s' % flag]
-        okf = sorted(unparse(n.value) for n in sets) == ['False', 'True']
-        tr = [n for n in sets if unparse(n.value) == 'True']
-        okf = okf and any("key == '%s' and val.lower() == 'true'" % flag in unparse(t) for t, p, k in path_condition(tr[0])) if tr else False
-        rep.check('exact', 'loader turns %s on only for the value "true"' % flag, okf, sets[0] if sets else init, 'flag parsing for %s changed' % flag)
-    rep.check('exact', 'generated policy carries name and version (required by the loader)', re.search(r'^name = "', tmpl, re.M) is not None and re.search(r'^version = 1$', tmpl, re.M) is not None, pd[0], 'generated policy lacks name/version')
+        rep.ob('roundtrip', 'the policy written for %s loads without error' % desc, True)
+        want_state = {'_host_keys': peer_['key_algorithms'], '_kex': peer_['kex_algorithms'], '_ciphers': peer_['encryption'], '_macs': peer_['mac'], '_banner': None, '_compressions': None, '_optional_host_keys': None,
+                      '_allow_algorithm_subset_and_reordering': False, '_allow_larger_keys': False, '_server_policy': not client_,
+                      '_dh_modulus_sizes': dict(peer_['dh_modulus_sizes']) or None}
+        diffs = ['%s is %r, the peer presented %r' % (k_, st_.get(k_), v_) for k_, v_ in want_state.items() if st_.get(k_) != v_]
+        hs = st_.get('_hostkey_sizes')
+        if peer_['host_keys']:
+            for t_, ent in peer_['host_keys'].items():
+                got_e = (hs or {}).get(t_)
+                if not isinstance(got_e, dict) or any(got_e.get(f_) != ent[f_] for f_ in ('hostkey_size', 'ca_key_type', 'ca_key_size')):
+                    diffs.append('_hostkey_sizes[%r] is %r, the peer presented %r' % (t_, got_e, ent))
+            if isinstance(hs, dict) and set(hs) != set(peer_['host_keys']):
+                diffs.append('_hostkey_sizes covers %s, the peer presented %s' % (sorted(hs), sorted(peer_['host_keys'])))
+        elif hs:
+            diffs.append('_hostkey_sizes is %r for a peer without probed keys' % (hs,))
+        rep.check('roundtrip', 'the loaded policy holds exactly what %s presented (lists in order, size maps, flags off)' % desc, not diffs, init,
+                  'the policy made from %s does not say what the peer presented: %s' % (desc, '; '.join(diffs[:3])), stmt='state: %s' % desc, sample={'rule': 'roundtrip', 'peer': desc})
+        loaded[desc] = (peer_, st_)
+        # and it passes on that very peer
+        if not diffs:
+            for verdict, errs, r_, forks in _policy.run(repo, pconsts, {k_: st_[k_] for k_ in _policy.POLICY}, peer_, subset=False, larger=False):
+                rep.evals()
+                rep.check('roundtrip', 'the policy made from %s passes on that peer with no errors' % desc, verdict is True and not errs, ev_,
+                          'the policy made from %s FAILS on that very peer (verdict %s, errors %s)' % (desc, verdict, [e_.get('mismatched_field') for e_ in errs]), stmt='same peer: %s' % desc)
+    rep.floor('roundtrip', 'peers written and re-loaded', len(RT_PEERS), 4)
 
     # ---- normalisation after loading only ADDS the fields create() trimmed; it never overwrites what the policy specifies ----
     nz = repo.func('policy', 'Policy._normalize_hostkey_sizes')
@@ -207,27 +168,6 @@ def run(repo, rep, tier):
                       sample={'rule': 'normalise', 'case': label})
     for fq, must in (('Policy.__init__', 'self._normalize_hostkey_sizes()'), ('Policy.load_builtin_policy', 'p._normalize_hostkey_sizes()')):
         rep.check('normalise', '%s normalises the size map after loading' % fq, must in unparse(repo.func('policy', fq)), repo.func('policy', fq), '%s no longer normalises the loaded size map' % fq)
-    # ---- rule 2: separator safety ---------------------------------------------------------------------------------------------
-    db2 = ce.lookup('ssh2_kexdb', 'SSH2_KexDB.MASTER_DB')
-    with_eq = sorted(n for cat in db2.values() for n in cat if '=' in n)
-    wild = sorted(n for cat in db2.values() for n in cat if n.endswith('-*'))
-    rep.samples.append({'rule': 'separator', 'names_with_equals_sign': with_eq[:5], 'wildcard_rows_instantiated_with_base64': wild[:3]})
-    splits = []
-    for n in walk_no_nested(init):
-        if isinstance(n, ast.Assign) and isinstance(n.value, ast.Call) and isinstance(n.value.func, ast.Attribute) and n.value.func.attr in ('split', 'partition') and unparse(n.value.func.value) == 'line':
-            splits.append(n)
-    rep.floor('separator', 'key/value split in the line parser', len(splits), 1)
-    for n in splits:
-        c = n.value
-        sep = c.args[0].value if c.args and isinstance(c.args[0], ast.Constant) else None
-        limited = c.func.attr == 'partition' or (len(c.args) >= 2 and unparse(c.args[1]) == '1') or any(k.arg == 'maxsplit' and unparse(k.value) == '1' for k in c.keywords)
-        two_targets = isinstance(n.targets[0], ast.Tuple) and len(n.targets[0].elts) in (2, 3)
-        alphabet_has_sep = bool(with_eq) or bool(wild)
-        rep.check('separator', 'the key/value split cannot be confused by %r inside a value' % sep, limited or not alphabet_has_sep, n,
-                  'line.split(%r) is unpacked into (key, value) without maxsplit, but serialised values can contain %r (e.g. %s, and every gss-*-<base64>== name): a policy generated from such a server cannot be loaded ("could not parse line")'
-                  % (sep, sep, (with_eq or wild)[0]))
-        rep.check('separator', 'split result is unpacked into key and value', two_targets, n, 'split result handling changed')
-
     # ---- rule 3b: drift table by abstract interpretation ------------------------------------------------------------------------
     # Policy.evaluate is interpreted (sa/listinterp.py) on a representative policy state (the fields the loader fills, as
     # established by the triangle rule; both relaxation flags false as the template fixes them) against the peer it was made
@@ -256,10 +196,18 @@ def run(repo, rep, tier):
                 'kex.host_keys()': '_hostkey_sizes', 'kex.dh_modulus_sizes()': '_dh_modulus_sizes'}
     LABEL_OF = {'kex.key_algorithms': 'Host keys', 'kex.kex_algorithms': 'Key exchanges', 'kex.server.encryption': 'Ciphers', 'kex.server.mac': 'MACs', 'kex.server.compression': 'Compression'}
 
+    first = RT_PEERS[0][0]
+    if first in loaded:
+        loaded_state = loaded[first][1]
+    else:
+        # (reported above: the reference policy could not be written and re-loaded) -- the drift table then uses the state the peer implies
+        loaded_state = {FIELD_OF[k]: _copy.deepcopy(v) for k, v in base_peer.items()}
+        loaded_state.update({'_banner': None, '_optional_host_keys': None, '_compressions': None, '_allow_algorithm_subset_and_reordering': False, '_allow_larger_keys': False})
+
     def policy_env(peer):
-        e = {'self.' + FIELD_OF[k]: _copy.deepcopy(v) for k, v in base_peer.items()}
-        e.update({'self._banner': None, 'self._optional_host_keys': None, 'self._allow_algorithm_subset_and_reordering': False, 'self._allow_larger_keys': False,
-                  'banner': 'SSH-2.0-OpenSSH_9.9', 'kex': Opaque(), 'kex.server': Opaque(), 'self': Opaque(), 'self._errors': []})
+        # the policy state is the one the constructor produced from the text Policy.create wrote for the reference peer (rule 1)
+        e = {'self.' + k: _copy.deepcopy(v) for k, v in loaded_state.items()}
+        e.update({'banner': 'SSH-2.0-OpenSSH_9.9', 'kex': Opaque(), 'kex.server': Opaque(), 'self': Opaque(), 'self._errors': []})
         e.update(pconsts)
         e.update(_copy.deepcopy(peer))
         return e
@@ -305,16 +253,6 @@ def run(repo, rep, tier):
         if unparse(call.func) == 'self._get_errors':
             return (True, (Opaque(), Opaque()))
         return None
-    pconsts = {}
-    for st_ in repo.cls('policy', 'Policy').body:
-        tv = (st_.targets[0], st_.value) if isinstance(st_, ast.Assign) and len(st_.targets) == 1 else ((st_.target, st_.value) if isinstance(st_, ast.AnnAssign) and st_.value is not None else None)
-        if tv and isinstance(tv[0], ast.Name):
-            try:
-                v_ = ce.eval_in(tv[1], 'policy', 'Policy')
-            except Exception:
-                continue
-            for pre in ('Policy.', 'self.', 'cls.'):
-                pconsts[pre + tv[0].id] = v_
     npaths = 0
     for desc, peer, want_label in scenarios:
         it = Interp(call_hook=hook_pol, resolver=policy_helper)
